@@ -63,6 +63,7 @@ const (
 	FateExpired       = "expired"
 	FateExpiredLocked = "expired+locked"
 	FateLocked        = "locked"
+	FateDeleted       = "deleted" // physically removed (DB.Delete / Shard.Delete) after the puts and marks
 )
 
 // Corpus is a generated object set of one container.
@@ -73,6 +74,19 @@ type Corpus struct {
 	Specs []uni.Spec `json:"specs"`
 	// Garbage lists positions in Specs that get a (default) garbage mark after all puts.
 	Garbage []int `json:"garbage,omitempty"`
+	// Deleted lists positions in Specs that are PHYSICALLY deleted (as GC does) after
+	// the puts and garbage marks; never tombstones, locks or locked objects.
+	Deleted []int `json:"deleted,omitempty"`
+}
+
+// IsDeleted reports whether Specs[pos] is physically deleted.
+func (c *Corpus) IsDeleted(pos int) bool {
+	for _, d := range c.Deleted {
+		if d == pos {
+			return true
+		}
+	}
+	return false
 }
 
 // Build constructs the object of s (extended ID aware).
@@ -105,6 +119,8 @@ func (c *Corpus) fate(pos int) string {
 	}
 	exp := s.Exp >= 0 && c.Epoch > uint64(s.Exp)
 	switch {
+	case c.IsDeleted(pos):
+		return FateDeleted
 	case ts:
 		return FateTombstoned
 	case garb:
@@ -137,7 +153,7 @@ func (c *Corpus) TombstonedBefore(pos int) bool {
 // Available reports the reference availability of Specs[pos] at c.Epoch.
 func (c *Corpus) Available(pos int) bool {
 	switch c.fate(pos) {
-	case FateTombstoned, FateGarbage, FateExpired:
+	case FateTombstoned, FateGarbage, FateExpired, FateDeleted:
 		return false
 	}
 	return true
@@ -157,6 +173,14 @@ func (c *Corpus) ViewOf(positions []int) []refsearch.Obj {
 	var res []refsearch.Obj
 	seenPar := map[int]bool{}
 	seen := map[int]bool{}
+	// a parent known from headers is indexed while at least one of its (selected)
+	// children is still stored: the metabase drops it with its last child
+	childLeft := map[int]bool{}
+	for _, pos := range positions {
+		if s := c.Specs[pos]; s.Parent >= 0 && s.Kind != uni.Regular && !c.IsDeleted(pos) {
+			childLeft[s.Parent] = true
+		}
+	}
 	for _, pos := range positions {
 		s := c.Specs[pos]
 		if seen[s.ID] {
@@ -166,14 +190,10 @@ func (c *Corpus) ViewOf(positions []int) []refsearch.Obj {
 		o := Build(s)
 		if par := o.Parent(); par != nil && !par.GetID().IsZero() && !seenPar[s.Parent] {
 			seenPar[s.Parent] = true
-			res = append(res, refsearch.FromObject(par, false, true))
+			res = append(res, refsearch.FromObject(par, false, childLeft[s.Parent]))
 		}
-		if c.fate(pos) == FateTombstoned && c.TombstonedBefore(pos) {
-			// never indexed; equivalent to unavailable
-			v := refsearch.FromObject(o, true, false)
-			res = append(res, v)
-			continue
-		}
+		// objects that were never indexed (tombstone came first) or are deleted are
+		// kept in the view as unavailable: queries draw their values from them too
 		res = append(res, refsearch.FromObject(o, true, c.Available(pos)))
 	}
 	return res
@@ -199,6 +219,16 @@ func intPool() []string {
 	return []string{"0", "-0", "+0", "1", "-1", "+5", "5", "007", "-007", "9", "10", "11", "-10",
 		"18446744073709551615", "18446744073709551616", "-18446744073709551616", "+18446744073709551615",
 		max, "-" + max, "+" + max, over, "-" + over, "00" + max}
+}
+
+// longInts are in-range integers spelled with more than 78 characters (sign,
+// leading zeros) and their neighbours.
+func longInts() []string {
+	max := genint.MaxAbs.String()
+	maxm1 := new(big.Int).Sub(genint.MaxAbs, big.NewInt(1)).String()
+	return []string{"-" + max, "-" + maxm1, "+" + max, "+" + maxm1, "0" + max, "00" + maxm1, "-0" + max,
+		"-" + max[:77] + "0", "+000000000000000000000000000000000000000000000000000000000000000000000000000000005",
+		"-000000000000000000000000000000000000000000000000000000000000000000000000000000017"}
 }
 
 func intString() *rapid.Generator[string] {
@@ -342,7 +372,26 @@ func Gen(o GenOpts) *rapid.Generator[Corpus] {
 			case FateExpired, FateExpiredLocked:
 				s.Exp = rapid.IntRange(0, int(c.Epoch)-1).Draw(t, "exppast")
 			}
+			deleted := !o.NoRemovals && fate != FateExpiredLocked && fate != FateLocked && rapid.IntRange(0, 3).Draw(t, "deleted") == 0
+			if deleted && rapid.Bool().Draw(t, "longint") {
+				// integers whose spelling is longer than 78 characters on objects that get deleted
+				key := rapid.SampledFrom([]string{KeyN, KeyN, KeyA, KeyAB}).Draw(t, "longkey")
+				v := rapid.SampledFrom(longInts()).Draw(t, "longval")
+				found := false
+				for i := range s.Attrs {
+					if s.Attrs[i][0] == key {
+						s.Attrs[i][1] = v
+						found = true
+					}
+				}
+				if !found {
+					s.Attrs = append(s.Attrs, [2]string{key, v})
+				}
+			}
 			c.Specs = append(c.Specs, s)
+			if deleted {
+				c.Deleted = append(c.Deleted, len(c.Specs)-1)
+			}
 			mk := func(kind string) {
 				xid, ok := take()
 				if !ok {
@@ -388,14 +437,21 @@ func Gen(o GenOpts) *rapid.Generator[Corpus] {
 		for _, g := range c.Garbage {
 			garbIDs[c.Specs[g].ID] = true
 		}
+		delIDs := map[int]bool{}
+		for _, d := range c.Deleted {
+			delIDs[c.Specs[d].ID] = true
+		}
 		for _, x := range extra {
 			pos := rapid.IntRange(0, len(c.Specs)).Draw(t, "xpos")
 			c.Specs = append(c.Specs[:pos], append([]uni.Spec{x}, c.Specs[pos:]...)...)
 		}
-		c.Garbage = nil
+		c.Garbage, c.Deleted = nil, nil
 		for i, s := range c.Specs {
 			if garbIDs[s.ID] {
 				c.Garbage = append(c.Garbage, i)
+			}
+			if delIDs[s.ID] {
+				c.Deleted = append(c.Deleted, i)
 			}
 		}
 		return c
